@@ -31,6 +31,7 @@ type zzEffect struct {
 
 type zzWorld struct {
 	noReleaseFaults bool
+	sameOnPinned    bool // a pinned (repeated) ADD is answered with the pinned address
 	lastReq         *eni.AllocRequest
 	log             []zzEffect
 	pendingD        map[string]bool
@@ -151,6 +152,14 @@ func zzService(mode string) (*networkService, *zzWorld, *zzK8s, *zzStore) {
 	zz.Override(zzMgrAllocate, func(m *eni.Manager, ctx context.Context, cni *daemon.CNI, req *eni.AllocRequest) (eni.NetworkResources, error) {
 		var out eni.NetworkResources
 		w.lastReq = req
+		if w.sameOnPinned && len(req.ResourceRequests) == 1 {
+			// the pool honours the pin of a repeated ADD: the pod gets the address it already holds
+			if lr, ok := req.ResourceRequests[0].(*eni.LocalIPRequest); ok && lr.IPv4.IsValid() {
+				out = append(out, zzLocalRes(lr.NetworkInterfaceID, lr.IPv4.As4()[3]))
+				w.log = append(w.log, zzEffect{kind: "allocate", key: cni.PodID, res: out, lock: zz.LockState(&svc.RWMutex)})
+				return out, nil
+			}
+		}
 		n := zz.Fork("alloc.n", 3)
 		for i := 0; i < n; i++ {
 			out = append(out, zzLocalRes("eni-new", byte(20+i)))
